@@ -63,6 +63,12 @@ def check(run):
     for n in ('ExcitationLine', 'RecombinationLine', 'ThermalCXLine', 'TotalRadiatedPower', 'Bremsstrahlung', 'BremsFunction'):
         if n not in classes:
             raise AnalysisError('anchored class vanished: %s' % n)
+    # shape normalisation: code moved into private helpers other than the anchors of the rules is read where it is called
+    for n in ('ExcitationLine', 'RecombinationLine', 'ThermalCXLine', 'TotalRadiatedPower', 'Bremsstrahlung', 'BremsFunction'):
+        try:
+            prog.normalise_class(classes[n], keep=('_populate_cache', '_change'), propagate=False)
+        except Exception:
+            pass
     _r1(run, classes)
     _r2(run, classes)
     _r3(run, classes)
